@@ -60,3 +60,20 @@ def kf(name):
 def cbool(x):
     """Concrete bool (rule 4 of DESIGN 1.1)."""
     return True if x else False
+
+
+def choose(seq, i):
+    """seq[i] for a (possibly symbolic) index, by an explicit if-chain so that
+    the result is the concrete element on every path."""
+    for k in range(len(seq)):
+        if i == k:
+            return seq[k]
+    raise IndexError(i)
+
+
+def concrete(i, lo, hi):
+    """The concrete Python int equal to the (possibly symbolic) i in [lo, hi]."""
+    for k in range(lo, hi + 1):
+        if i == k:
+            return k
+    raise ValueError(i)
